@@ -66,18 +66,15 @@ harnesses! {
         check!(o.alpha() == 1.0, "from_rgb is opaque");
     }
     /// hsl(): what the constructor is handed by `hsl()`/`hsla()` (saturation
-    /// already floored at 0) is reported back in range; in-range channels are
-    /// kept exactly; alpha is clamped; hue in [0, 360).
-    fn c31_hsla_new_ranges [unwind 2] [stub_deg_mod] (s) {
+    /// already floored at 0): in-range channels are kept exactly; alpha is
+    /// clamped; hue in [0, 360).
+    fn c31_hsla_new_keeps_channels [unwind 2] [stub_deg_mod] (s) {
         let (h, sat, l, a) = (s.finite(), s.num(), s.num(), s.num());
         s.assume(sat >= 0.0);
-        known!(s, "C31-hsl-saturation-lightness-unclamped", sat > 1.0 || l < 0.0 || l > 1.0);
         let c = Hsla::new(h, sat, l, a, s.bool());
         cover!(sat == 1.0 && l == 0.0, "boundary channels");
         cover!(a > 1.0, "alpha above range");
         check!(c.hue() >= 0.0 && c.hue() < 360.0, "hue is within [0, 360)");
-        check!(c.sat() >= 0.0 && c.sat() <= 1.0, "saturation is within 0..100%");
-        check!(c.lum() >= 0.0 && c.lum() <= 1.0, "lightness is within 0..100%");
         check!(c.alpha() >= 0.0 && c.alpha() <= 1.0, "alpha is within 0..1 (hsl)");
         if sat <= 1.0 && l >= 0.0 && l <= 1.0 {
             check!(c.sat() == sat && c.lum() == l, "in-range saturation and lightness are kept exactly");
@@ -86,25 +83,64 @@ harnesses! {
             check!(c.alpha() == a, "an in-range alpha is kept exactly (hsl)");
         }
     }
+    /// hsl(): the reported saturation is within 0..100% (recorded finding:
+    /// a saturation above 100% is kept).
+    fn c31_hsla_saturation_in_range [unwind 2] [stub_deg_mod] (s) {
+        let (h, sat, l, a) = (s.finite(), s.num(), s.num(), s.num());
+        s.assume(sat >= 0.0);
+        known!(s, "C31-hsl-saturation-lightness-unclamped", sat > 1.0);
+        let c = Hsla::new(h, sat, l, a, true);
+        cover!(sat == 1.0, "boundary");
+        check!(c.sat() >= 0.0 && c.sat() <= 1.0, "saturation is within 0..100%");
+    }
+    /// hsl(): the reported lightness is within 0..100% (recorded finding:
+    /// a lightness outside that range is kept).
+    fn c31_hsla_lightness_in_range [unwind 2] [stub_deg_mod] (s) {
+        let (h, sat, l, a) = (s.finite(), s.num(), s.num(), s.num());
+        s.assume(sat >= 0.0);
+        known!(s, "C31-hsl-saturation-lightness-unclamped", l < 0.0 || l > 1.0);
+        let c = Hsla::new(h, sat, l, a, true);
+        cover!(l == 0.0, "boundary");
+        check!(c.lum() >= 0.0 && c.lum() <= 1.0, "lightness is within 0..100%");
+    }
     /// hwb(): whiteness and blackness are reported within 0..100% and sum to
-    /// at most 100%; alpha is clamped.  Inputs: multiples of 1/16 up to 4
-    /// (and negative ones, which are the recorded finding).
+    /// at most 100%; alpha is clamped.  Inputs: multiples of 1/16 in [0, 4].
     fn c31_hwba_new_ranges [unwind 2] (s) {
         let (wi, bi) = (s.i8(), s.i8());
-        s.assume(wi >= -16 && wi <= 64 && bi >= -16 && bi <= 64);
+        s.assume(wi >= 0 && wi <= 64 && bi >= 0 && bi <= 64);
         let (w, b) = (f64::from(wi) / 16.0, f64::from(bi) / 16.0);
         let (h, a) = (s.finite(), s.num());
-        known!(s, "C31-hwb-negative-whiteness-blackness", w < 0.0 || b < 0.0);
         let c = Hwba::new(h, w, b, a);
         cover!(w + b > 1.0, "normalised");
         cover!(w + b <= 1.0 && w > 0.0, "kept");
-        check!(c.whiteness() >= 0.0 && c.whiteness() <= 1.0, "whiteness is within 0..100%");
-        check!(c.blackness() >= 0.0 && c.blackness() <= 1.0, "blackness is within 0..100%");
+        check!(c.whiteness() >= 0.0 && c.whiteness() <= 1.0, "whiteness is within 0..100% (non-negative input)");
+        check!(c.blackness() >= 0.0 && c.blackness() <= 1.0, "blackness is within 0..100% (non-negative input)");
         check!(c.whiteness() + c.blackness() <= 1.0 + 1e-12, "whiteness + blackness is at most 100%");
         check!(c.alpha() >= 0.0 && c.alpha() <= 1.0, "alpha is within 0..1 (hwb)");
-        if w >= 0.0 && b >= 0.0 && w + b <= 1.0 {
+        if w + b <= 1.0 {
             check!(c.whiteness() == w && c.blackness() == b, "in-range whiteness and blackness are kept exactly");
         }
+    }
+    /// hwb(): also for negative inputs the reported whiteness is within
+    /// 0..100% (recorded finding: a negative whiteness is kept).
+    fn c31_hwba_whiteness_in_range [unwind 2] (s) {
+        let (wi, bi) = (s.i8(), s.i8());
+        s.assume(wi >= -16 && wi <= 64 && bi >= 0 && bi <= 64);
+        let (w, b) = (f64::from(wi) / 16.0, f64::from(bi) / 16.0);
+        known!(s, "C31-hwb-negative-whiteness-blackness", w < 0.0);
+        let c = Hwba::new(0.0, w, b, 1.0);
+        cover!(w > 1.0, "above range");
+        check!(c.whiteness() >= 0.0 && c.whiteness() <= 1.0, "whiteness is within 0..100%");
+    }
+    /// The same for blackness.
+    fn c31_hwba_blackness_in_range [unwind 2] (s) {
+        let (wi, bi) = (s.i8(), s.i8());
+        s.assume(wi >= 0 && wi <= 64 && bi >= -16 && bi <= 64);
+        let (w, b) = (f64::from(wi) / 16.0, f64::from(bi) / 16.0);
+        known!(s, "C31-hwb-negative-whiteness-blackness", b < 0.0);
+        let c = Hwba::new(0.0, w, b, 1.0);
+        cover!(b > 1.0, "above range");
+        check!(c.blackness() >= 0.0 && c.blackness() <= 1.0, "blackness is within 0..100%");
     }
     /// EVERY rgb byte colour (2^24) reports hsl channels in range (saturation
     /// to the output precision).
